@@ -8,7 +8,7 @@ EXTENDS ListenerHttpImplOps, Json, IOUtils
 VARIABLES tid, l, verdict, ts, ti, drifted
 
 ImplCmp(i, e) ==
-  IF e.kind # "req" \/ e.cls \notin Requests THEN <<{}, i>>
+  IF e.kind # "req" \/ ~KnownRequest(e.cls) THEN <<{}, i>>
   ELSE LET pl == Pipeline(e.cls, Legacy, FALSE)
            pf == Pipeline(e.cls, Fixed, FALSE)
            \* bounded queue that the tester has not seen drained: the
@@ -17,7 +17,7 @@ ImplCmp(i, e) ==
        << IF Same(e.obs, pl) \/ Same(e.obs, pf) \/ Same(e.obs, pq) THEN {}
           ELSE {<<e.cls.verb, e.cls.accept, e.cls.charset, e.cls.range,
                   e.cls.ctype, e.cls.cenc, e.cls.clen, e.cls.body,
-                  e.obs.outcome, e.obs.status>>},
+                  e.cls.lpos, e.cls.lex, e.obs.outcome, e.obs.status>>},
           i >>
 
 TraceBatch == JsonDeserialize(IOEnv.TRACE_FILE).traces
